@@ -14,7 +14,7 @@
 #include "ioerrs.h"
 #include "chunks.h"
 
-long g_src0, g_tgt0, g_cplen, g_src_end, g_tgt_end; int g_wmatch;
+long g_src0, g_tgt0, g_cplen, g_src_end, g_tgt_end, g_hdr, g_explen; int g_wmatch;
 static int g_exit_code;
 #undef errno
 #define errno verif_errno
@@ -39,6 +39,9 @@ static Boolean verif_AddChunk(ChunkList* NChunk, LargeWord NewStart, LargeWord N
     (void)NChunk; (void)Warn; g_chunk_calls++; g_chunk_start = NewStart; g_chunk_len = NewLen; return (Boolean)(g_chunk_ret != 0);
 }
 #define AddChunk(a, b, c, d) verif_AddChunk((a), (b), (c), (d))
+/* memset on the transfer buffer: observed (uniform-buffer ghost of the file model), the real 4 KiB array is not touched */
+static void* mon_memset(void* p, int v, size_t n) { gf_unif_ptr = (unsigned char*)p; gf_unif_val = (unsigned char)v; gf_unif_n = n; return p; }
+#define memset(p, v, n) mon_memset((p), (v), (n))
 #define main p2bin_main
 #include "contracts/loop_defaults.h"
 #include "p2bin.c" /* the real /repo/p2bin.c */
@@ -46,6 +49,7 @@ static Boolean verif_AddChunk(ChunkList* NChunk, LargeWord NewStart, LargeWord N
 #undef fopen
 #undef FilterOK
 #undef AddChunk
+#undef memset
 
 static void mk_file(int i) {
     VND(gf[i].len, long); VND(gf[i].pos, long); VND(gf[i].w_off, long); VND(gf[i].w_val, uchar);
@@ -113,4 +117,155 @@ void h_ProcessFile_data(void) {
         VREACH("notselected");
     }
     VPOST(gf[0].pos == 12 + (long)len + 1, "C05: the input is consumed exactly up to the next record");
+}
+
+static unsigned long spec_below(unsigned long n, int m);
+extern const Byte lane_div[9], lane_mask[9], lane_eq[9];
+/* OpenTarget: the image is created with the optional entry-address header (zero for now) followed by exactly
+ * (stop - start + 1) * granularity fill bytes (byte mode ALL) */
+void h_OpenTarget(void) {
+    unsigned gran; unsigned long units;
+    gf_reset();
+    mk_file(1); gf[1].len = 0; gf[1].pos = 0;                /* fopen(.., "wb") creates / truncates (trusted) */
+    gf_cell_mode = 1; gf_noscript_ptr = Buffer; g_open_which = 1; TargFile = NULL;
+    QuietMode = True; msg_txt[0] = 'm'; msg_txt[1] = 0;
+    VND(StartAdr, uint); VND(StopAdr, uint); VND(StartHeader, schar); VND(FillVal, uchar);
+    VASSUME(StartAdr <= StopAdr && StartHeader >= -4 && StartHeader <= 4);
+#ifdef VERIF_GRAN
+    gran = VERIF_GRAN;
+#else
+    VND(gran, uint); VASSUME(gran == 1 || gran == 2 || gran == 4);
+#endif
+    { int m;
+#ifdef VERIF_LANE_MODE
+      m = VERIF_LANE_MODE;
+#else
+      m = 0;
+#endif
+      MaxGran = gran; SizeDiv = lane_div[m]; ANDMask = lane_mask[m]; ANDEq = lane_eq[m];
+      units = (unsigned long)StopAdr - StartAdr + 1;
+      VASSUME(((unsigned long)StopAdr + 1) * gran <= 0xffffffffu);   /* byte addresses of the window fit 32 bits */
+      g_explen = (long)(spec_below(((unsigned long)StopAdr + 1) * gran, m) - spec_below((unsigned long)StartAdr * gran, m)); }
+    g_hdr = StartHeader < 0 ? -StartHeader : StartHeader;
+    OpenTarget();
+    VPOST(TargFile == GF_FILE(1), "C05: the target is opened");
+    VPOST(gf[1].len == g_hdr + g_explen, "C05: the image length is header + the number of byte addresses of the window that the lane selection keeps ((stop - start + 1) * granularity in mode ALL)");
+    if (gf[1].w_off < g_hdr) { VPOST(gf[1].w_val == 0, "C05: the entry-address header is created as zero bytes"); VREACH("hdr"); }
+    else if (gf[1].w_off < gf[1].len) { VPOST(gf[1].w_val == FillVal, "C05: every byte of the fresh image holds the fill value"); VREACH("fill"); }
+    VREACH("end");
+}
+
+/* MeasureFile: one data record + end record.  The automatic range grows to the lowest / highest address used by the
+ * selected records, the granularity of the image is the largest one seen; unselected records change nothing. */
+void h_MeasureFile(void) {
+    Byte cpu, seg, gran; unsigned long start, offs, a, e; unsigned len; char name[2]; int sel;
+    LongWord sa0, so0; Byte mg0;
+    gf_reset();
+    mk_file(0); gf[0].pos = 0; gf_cell_mode = 1; gf_noscript_ptr = Buffer; g_open_which = 0;
+    QuietMode = True; msg_txt[0] = 'm'; msg_txt[1] = 0; name[0] = 'f'; name[1] = 0;
+    VND(cpu, uchar); VND(seg, uchar); VND(gran, uchar); VND(start, ulong); VND(len, uint); VND(offs, ulong);
+    VASSUME(start <= 0xffffffffu && len <= 0xffff && offs <= 0xffffffffu);
+    VASSUME(gran == 1 || gran == 2 || gran == 4);
+    VND(g_doit, int);
+    VND(StartAdr, uint); VND(StopAdr, uint); VND(StartAuto, uchar); VND(StopAuto, uchar); VND(ValidSegment, uchar); VND(MaxGran, uchar);
+    VASSUME(MaxGran == 1 || MaxGran == 2 || MaxGran == 4);
+    gf_script_i = 0; gf_script[0] = FileMagic; gf_script[1] = FileHeaderDataRec; gf_script[2] = cpu; gf_script[3] = seg; gf_script[4] = gran;
+    gf_script[5] = start; gf_script[6] = len; gf_script[7] = FileHeaderEnd; gf_script_n = 8;
+    VASSUME(12 + (long)len < gf[0].len - 1);
+    VASSUME(len / gran >= 1 && start + offs + len / gran - 1 <= 0xffffffffu);
+    a = start + offs; e = a + len / gran - 1;
+    sel = g_doit && seg == ValidSegment;
+    sa0 = StartAdr; so0 = StopAdr; mg0 = MaxGran; g_filter_arg = -1;
+    MeasureFile(name, offs);
+    VPOST(g_filter_arg == cpu, "C05: the -f filter is applied to the record's CPU id (range measurement)");
+    if (sel) {
+        VPOST(MaxGran == (gran > mg0 ? gran : mg0), "C05: the image granularity is the largest granularity of the selected records");
+        VPOST(StartAdr == ((StartAuto && a < sa0) ? a : sa0), "C05: an automatic start address is the lowest address used by the selected records");
+        VPOST(StopAdr == ((StopAuto && e > so0) ? e : so0), "C05: an automatic stop address is the highest address used by the selected records");
+        VREACH("selected");
+    } else {
+        VPOST(MaxGran == mg0 && StartAdr == sa0 && StopAdr == so0, "C05: records that are filtered out or in another segment do not influence the range");
+        VREACH("notselected");
+    }
+    VPOST(gf[0].pos == 12 + (long)len + 1, "C05: the input is consumed exactly up to the next record (range measurement)");
+}
+
+/* ---- byte-lane selection (-m EVEN/ODD/BYTEn/WORDn) ---------------------------------------------------------
+ * spec_below(n) = number of byte addresses x < n that the selection keeps, in closed form per mode (independent
+ * of the code's loop); a selected byte at byte address B of the image window starting at byte address S lands at
+ * offset header + spec_below(B) - spec_below(S); the image holds spec_below(E) - spec_below(S) bytes. */
+const Byte lane_div[9] = {1, 2, 2, 4, 4, 4, 4, 2, 2}, lane_mask[9] = {0, 1, 1, 3, 3, 3, 3, 2, 2}, lane_eq[9] = {0, 0, 1, 0, 1, 2, 3, 0, 2};
+static unsigned long spec_below(unsigned long n, int m) {
+    unsigned long mask = lane_mask[m], eq = lane_eq[m], r;
+    if (mask == 0) return n;
+    if (mask == 1) return (n + 1 - eq) >> 1;
+    if (mask == 3) return (n + 3 - eq) >> 2;
+    r = n & 3; r = (r > eq) ? r - eq : 0; if (r > 2) r = 2;      /* mask 2: two consecutive bytes out of four */
+    return 2 * (n >> 2) + r;
+}
+#ifndef VERIF_LANE_MAXLEN
+#define VERIF_LANE_MAXLEN 12
+#endif
+#ifndef VERIF_GRAN
+#define VERIF_GRAN 1
+#endif
+void h_ProcessFile_lane(void) {
+    Byte cpu, seg, gran; unsigned long start, B, S; unsigned len; char name[2]; int m; long hdr, k, tlen0; unsigned char old;
+    gf_reset();
+    mk_file(0); mk_file(1); gf[0].pos = 0;
+    gf_noscript_ptr = Buffer; gf_cell_mode = 0;
+    TargFile = GF_FILE(1); g_open_which = 0;
+    QuietMode = True; msg_txt[0] = 'm'; msg_txt[1] = 0; name[0] = 'f'; name[1] = 0;
+    VND(cpu, uchar); VND(seg, uchar); VND(start, ulong); VND(len, uint);
+    gran = VERIF_GRAN;
+#ifdef VERIF_LANE_MODE
+    m = VERIF_LANE_MODE;                                     /* one obligation group per mode: SizeDiv / mask constant */
+#else
+    VND(m, int); VASSUME(m >= 1 && m <= 8);
+#endif
+#ifdef VERIF_EXCLUDE_C05_LANE_UNALIGNED
+    /* known finding: records / windows that do not start on a lane boundary */
+#endif
+    SizeDiv = lane_div[m]; ANDMask = lane_mask[m]; ANDEq = lane_eq[m];
+    VASSUME(start <= 0x3fffffffu && len >= gran && len <= VERIF_LANE_MAXLEN && (len % gran) == 0);
+    g_doit = 1; g_chunk_ret = 0; ValidSegment = seg;
+    VND(StartAdr, uint); VND(StopAdr, uint); VND(StartHeader, schar);
+    VASSUME(StartAdr <= StopAdr && StopAdr <= 0x3fffffffu && StartHeader >= -4 && StartHeader <= 4);
+    /* the record lies inside the window (clipping is the subject of the ALL-mode harness) */
+    VASSUME(StartAdr <= start && start + len / gran - 1 <= StopAdr);
+    EntryAdrPresent = False;
+    gf_script_i = 0; gf_script[0] = FileMagic; gf_script[1] = FileHeaderDataRec; gf_script[2] = cpu; gf_script[3] = seg; gf_script[4] = gran;
+    gf_script[5] = start; gf_script[6] = len; gf_script[7] = FileHeaderEnd; gf_script_n = 8;
+    VASSUME(12 + (long)len < gf[0].len - 1);
+    hdr = StartHeader < 0 ? -StartHeader : StartHeader;
+    S = (unsigned long)StartAdr * gran;
+    VASSUME(gf[1].len >= hdr + (long)(spec_below(((unsigned long)StopAdr + 1) * gran, m) - spec_below(S, m)));
+    /* witness: byte k of the record, at byte address B */
+    VND(k, long); VASSUME(k >= 0 && k < (long)len);
+    gf[0].w_off = 12 + k; B = start * gran + (unsigned long)k;
+    if ((B & lane_mask[m]) == lane_eq[m]) gf[1].w_off = hdr + (long)(spec_below(B, m) - spec_below(S, m));   /* where the statement puts it */
+    tlen0 = gf[1].len; old = gf[1].w_val;
+    ProcessFile(name, 0);
+    VPOST(gf[1].len == tlen0, "C05: lane selection never changes the length of the image");
+    if ((B & lane_mask[m]) == lane_eq[m]) {
+        VPOST(gf[1].w_val == gf[0].w_val, "C05: a byte kept by the -m lane selection lands at offset header + (number of kept byte addresses between the window start and its own address)");
+        VREACH("kept");
+    }
+    VPOST(gf[1].bytes_written == spec_below((start + len / gran) * gran, m) - spec_below(start * gran, m), "C05: exactly the bytes on the selected lanes are transferred");
+    VREACH("end");
+}
+
+/* SelectedCount against its closed-form contract: every start lane, every length, every -m mode */
+void h_SelectedCount(void) {
+    LongWord st, ln, r; int m;
+    VND(m, int); VASSUME(m >= 0 && m <= 8);
+#ifdef VERIF_LANE_MODE
+    m = VERIF_LANE_MODE;
+#endif
+    SizeDiv = lane_div[m]; ANDMask = lane_mask[m]; ANDEq = lane_eq[m];
+    VND(st, uint); VND(ln, uint); VASSUME(ln <= 0xfffffff8u);
+    r = SelectedCount(st, ln);
+    VPOST(r == (LongWord)(spec_below((unsigned long)(st & 3) + ln, m) - spec_below(st & 3, m)), "C05: SelectedCount is the number of byte addresses of the range that the lane selection keeps");
+    VPOST(P2BIN_MODE_OK && r == (LongWord)(SPEC_BELOW((st & 3) + ln) - SPEC_BELOW(st & 3)), "C05: SelectedCount satisfies the contract by which its callers are verified (ensures clause, literally)");
+    VREACH("end");
 }
